@@ -96,7 +96,9 @@ func (c *compiler) expandExpression(expr []token, line int) ([]token, error) {
 
 				label, labelOk := c.labels[tok.val]
 				if labelOk {
-					val := (label - line) % int(c.m)
+					// the plain distance: reducing it here would change the value of
+					// quotients and remainders (the assembled field is reduced at the end)
+					val := label - line
 					if val < 0 {
 						output = append(output, token{tokSymbol, "-"}, token{tokNumber, fmt.Sprintf("%d", -val)})
 					} else {
